@@ -51,7 +51,7 @@ struct radio_state
     unsigned        lock_depth = 0;
     std::uint32_t   setup_margin_us = 300;
     bool            refuse_disarm = false;          // buggify: the hardware is too close to the event
-    std::uint64_t   scheduled_events = 0, disarmed = 0, adv_schedule_seq = 0;
+    std::uint64_t   scheduled_events = 0, disarmed = 0, adv_schedule_seq = 0, too_late_events = 0;     // too late: a connection event that could not be set up in time any more
 
     // link encryption as the radio sees it (only used by radios with hardware_supports_encryption; a flag and a key, no cipher:
     // the air of the simulated world decides from flag and key of both sides whether a PDU can be decoded)
@@ -111,7 +111,7 @@ public:
         ++scheduled_events;
         const std::int64_t start = t0_us + start_us;
         too_late = start < now_us + static_cast< std::int64_t >( setup_margin_us );
-        if ( too_late ) return delta_time();
+        if ( too_late ) { ++too_late_events; return delta_time(); }
         return delta_time( static_cast< std::uint32_t >( start - now_us ) );
     }
 
